@@ -304,12 +304,7 @@ func DecodeEntryFrom(r io.Reader) (*Entry, uint32, error) {
 	entry.Meta = header.Meta
 	entry.ExpiresAt = header.ExpiresAt
 
-	if cap(entry.Key) < keyLen {
-		entry.Key = make([]byte, keyLen)
-	} else {
-		entry.Key = entry.Key[:keyLen]
-	}
-	if _, err := io.ReadFull(hashReader, entry.Key); err != nil {
+	if entry.Key, err = readSection(hashReader, entry.Key, keyLen); err != nil {
 		entry.DecrRef()
 		if errors.Is(err, io.EOF) || errors.Is(err, io.ErrUnexpectedEOF) {
 			return nil, 0, ErrPartialEntry
@@ -317,12 +312,7 @@ func DecodeEntryFrom(r io.Reader) (*Entry, uint32, error) {
 		return nil, 0, err
 	}
 
-	if cap(entry.Value) < valueLen {
-		entry.Value = make([]byte, valueLen)
-	} else {
-		entry.Value = entry.Value[:valueLen]
-	}
-	if _, err := io.ReadFull(hashReader, entry.Value); err != nil {
+	if entry.Value, err = readSection(hashReader, entry.Value, valueLen); err != nil {
 		entry.DecrRef()
 		if errors.Is(err, io.EOF) || errors.Is(err, io.ErrUnexpectedEOF) {
 			return nil, 0, ErrPartialEntry
@@ -345,6 +335,30 @@ func DecodeEntryFrom(r io.Reader) (*Entry, uint32, error) {
 
 	recordLen := uint32(headerBytes) + uint32(keyLen) + uint32(valueLen) + crc32.Size
 	return entry, recordLen, nil
+}
+
+// readSection reads exactly n bytes into buf (reusing its capacity). The declared
+// length comes from the record header and is not trusted for the allocation:
+// large sections grow with the bytes that are actually there.
+func readSection(r io.Reader, buf []byte, n int) ([]byte, error) {
+	const chunk = 64 << 10
+	if n <= cap(buf) || n <= chunk {
+		if cap(buf) < n {
+			buf = make([]byte, n)
+		}
+		buf = buf[:n]
+		_, err := io.ReadFull(r, buf)
+		return buf, err
+	}
+	buf = buf[:0]
+	for len(buf) < n {
+		step := min(n-len(buf), max(chunk, len(buf)))
+		buf = append(buf, make([]byte, step)...)
+		if _, err := io.ReadFull(r, buf[len(buf)-step:]); err != nil {
+			return buf[:0], err
+		}
+	}
+	return buf, nil
 }
 
 // EstimateEncodeSize estimates the encoded size of an entry in the WAL/value log.
